@@ -108,3 +108,34 @@ package tls
 //@   ensures byaddr: old(len(c.config.ServerName) == 0 && !isnil(c.conn)) ==> called(RemoteAddr, 0)
 //@   at after call RemoteAddr#0: assume addr_nonnil: res0 != nil
 //@   note addr_nonnil: net.Conn implementations return a non-nil address (listed assumption; a nil Addr would panic in .String())
+
+// (*clientHandshakeStateTLS13).handshake (upstream, with uTLS hooks): the order of the steps of a successful TLS 1.3
+// client handshake (control flow only). C12/C13: the ServerHello checks come first and each step runs only after the
+// previous one succeeded; C14: the server's certificate is read (and verified there) before the server's Finished is
+// accepted and before anything of the client's second flight is sent; C11: the exporter secret is fixed in
+// readServerFinished, i.e. before the client's own Certificate/CertificateVerify enter the transcript.
+//@ func (*clientHandshakeStateTLS13).handshake
+//@   property C11 C12 C14 C17
+//@   unchecked safety pre
+//@   note unchecked: thin contract (control flow only); panic-freedom and callee preconditions are listed assumptions
+//@   requires hs != nil
+//@   ensures steps: ret == nil ==> called(checkServerHelloOrHRR, 0) && callres(checkServerHelloOrHRR, 0) == nil && called(processServerHello, 0) && callres(processServerHello, 0) == nil && called(establishHandshakeKeys, 0) && callres(establishHandshakeKeys, 0) == nil && called(readServerParameters, 0) && callres(readServerParameters, 0) == nil && called(readServerCertificate, 0) && callres(readServerCertificate, 0) == nil && called(readServerFinished, 0) && callres(readServerFinished, 0) == nil && called(sendClientCertificate, 0) && callres(sendClientCertificate, 0) == nil && called(sendClientFinished, 0) && callres(sendClientFinished, 0) == nil
+//@   at before call processHelloRetryRequest#0: assert hrr_after_check: called(checkServerHelloOrHRR, 0) && callres(checkServerHelloOrHRR, 0) == nil
+//@   at before call processServerHello#0: assert sh_after_check: called(checkServerHelloOrHRR, 0) && callres(checkServerHelloOrHRR, 0) == nil && (called(processHelloRetryRequest, 0) ==> callres(processHelloRetryRequest, 0) == nil)
+//@   at before call establishHandshakeKeys#0: assert keys_after_sh: called(processServerHello, 0) && callres(processServerHello, 0) == nil
+//@   at before call readServerCertificate#0: assert cert_after_params: called(readServerParameters, 0) && callres(readServerParameters, 0) == nil
+//@   at before call readServerFinished#0: assert finished_after_cert: called(readServerCertificate, 0) && callres(readServerCertificate, 0) == nil
+//@   at before call sendClientCertificate#0: assert client_flight_after_finished: called(readServerFinished, 0) && callres(readServerFinished, 0) == nil && nocall(exportKeyingMaterial)
+//@   at before call sendClientFinished#0: assert client_finished_last: called(sendClientCertificate, 0) && callres(sendClientCertificate, 0) == nil && nocall(exportKeyingMaterial)
+//@   ensures no_ekm_here: nocall(exportKeyingMaterial)
+//@   note no_ekm_here: handshake() itself never derives the exporter secret; readServerFinished does (below)
+
+// readServerFinished: the exporter master secret is derived here, from the master secret and the transcript as of the
+// server's Finished (C11: both sides derive it from ClientHello..server Finished).
+//@ func (*clientHandshakeStateTLS13).readServerFinished
+//@   property C11
+//@   unchecked safety pre
+//@   note unchecked: thin contract (control flow and call arguments only)
+//@   requires hs != nil
+//@   ensures ekm_at_server_finished: ret == nil ==> called(exportKeyingMaterial, 0)
+//@   at before call exportKeyingMaterial#0: assert ekm_inputs: arg1 == hs.masterSecret && arg2 == hs.transcript
